@@ -554,7 +554,7 @@ func propC07(w *World, r *Report) {
 	T := d.leaf("tempThresh")
 	// K1
 	checkDetectorParamsImmutable(w, r, d, "K1", "start", "rowStop", "columnStop", "deltaThresh", "countThresh", "warmerOnly", "useOneDiff")
-	checkDetectorSeesEveryFrame(w, r, "K6")
+	checkDetectorSeesEveryFrame(w, r, "K7")
 	for _, fn := range []*ssa.Function{k.diffAbs, k.diffWarm, k.countOne, k.countTwo} {
 		n := 0
 		for _, a := range elemAccesses(fn) {
